@@ -80,8 +80,33 @@ func FetchRecord(ctx context.Context, r Resolver, fromDomain string) (policyDoma
 		return "", nil, nil
 	}
 
-	rec, err = dmarc.Parse(records[0])
+	rec, err = dmarc.Parse(normalizeRecord(records[0]))
 	return policyDomain, rec, err
+}
+
+// normalizeRecord prepares the record for the parser, which takes the
+// keywords in lower case only (they are case-insensitive, RFC 7489 Section
+// 6.4) and fails on values of the reporting tags it does not know, while
+// errors in anything but 'v' and 'p' are to be ignored in favor of defaults
+// (Section 6.3). Only the tags used for the policy evaluation are kept.
+func normalizeRecord(txt string) string {
+	var tags []string
+	for _, tag := range strings.Split(txt, ";") {
+		kv := strings.SplitN(tag, "=", 2)
+		if len(kv) != 2 {
+			continue
+		}
+		k, v := strings.TrimSpace(kv[0]), strings.TrimSpace(kv[1])
+		switch strings.ToLower(k) {
+		case "v":
+			tags = append(tags, "v="+v)
+		case "p", "sp", "adkim", "aspf":
+			tags = append(tags, strings.ToLower(k)+"="+strings.ToLower(v))
+		case "pct":
+			tags = append(tags, "pct="+v)
+		}
+	}
+	return strings.Join(tags, "; ")
 }
 
 // filterRecords excludes records that are not DMARC policies.
